@@ -362,6 +362,34 @@ func init() {
 					}
 				}
 			}
+			// the hand-off of a full batch is synchronous: the channel is unbuffered, so the caller
+			// cannot start the next batch (whose time-out could fire first) while a full batch
+			// is still waiting for the sender goroutine
+			ast.Inspect(nb.Decl.Body, func(nd ast.Node) bool {
+				kv, ok := nd.(*ast.KeyValueExpr)
+				if !ok {
+					return true
+				}
+				if id, ok := kv.Key.(*ast.Ident); !ok || info.Uses[id] != types.Object(r.P.Field("workers/sourcerunner", "batchingOperator", "batches")) {
+					return true
+				}
+				r.Site(kv.Pos(), "batches channel capacity")
+				call, ok := ast.Unparen(kv.Value).(*ast.CallExpr)
+				unbuffered := false
+				if ok {
+					if id, ok := call.Fun.(*ast.Ident); ok && id.Name == "make" {
+						if len(call.Args) == 1 {
+							unbuffered = true
+						} else if tv, ok := info.Types[call.Args[1]]; ok && tv.Value != nil && tv.Value.String() == "0" {
+							unbuffered = true
+						}
+					}
+				}
+				if !unbuffered {
+					r.Fail(nb.Name()+":batches-buffered", kv.Pos(), nil, "the batches channel is buffered: a full batch can wait in the channel while later records fill the next batch, whose time-out the sender's select may serve first - younger records, barriers or watermarks then overtake older records")
+				}
+				return true
+			})
 			// operatorCluster reaches operators only through batchingOperator.HandleEvent / Flush
 			opF := r.P.Field("workers/sourcerunner", "batchingOperator", "op")
 			for _, fa := range r.fieldAccesses(opF) {
